@@ -260,6 +260,19 @@ class Check(PropertyCheck):
             jobs_ = [[(ms, max(1, dd)) for ms, dd in job] for job in jobs_]
             inst_ = build_instance(jobs_)
             d_ = _jsl.Dispatcher(inst_)
+            if r.random() < 0.5:
+                # observers of the caller's that track OTHER feature types than the rule needs are already there: the rule gets its own
+                from job_shop_lib.dispatching.feature_observers import FeatureType as _FT
+                DurationObserver(d_, feature_types=[_FT.OPERATIONS])
+                IsReadyObserver(d_, feature_types=[_FT.OPERATIONS, _FT.MACHINES])
+                try:
+                    got0, want0 = observer_based_most_work_remaining_rule(d_), most_work_remaining_rule(d_)
+                except Exception as e:  # pylint: disable=broad-except
+                    return [("mwkr-disagree", f"the observer-based most-work-remaining rule raised {type(e).__name__}({e}) on a dispatcher that "
+                             f"already has a DurationObserver / IsReadyObserver without job features (instance {jobs_})")]
+                if got0.operation_id != want0.operation_id:
+                    return [("mwkr-disagree", f"observer-based rule selects {got0.operation_id}, direct rule {want0.operation_id} on a dispatcher "
+                             f"with caller's observers lacking job features")]
             first = observer_based_most_work_remaining_rule(d_)
             d_.dispatch(first, first.machines[0])
             for sub in list(d_.subscribers):
